@@ -28,6 +28,11 @@ OF THIS SOFTWARE, EVEN IF ADVISED OF THE POSSIBILITY OF SUCH DAMAGE.
 
 #include "vm_compiled.hpp"
 #include "common.hpp"
+#ifdef RANDOMX_VERIF
+#include "verif_hooks.h"
+#undef RANDOMX_PROGRAM_ITERATIONS
+#define RANDOMX_PROGRAM_ITERATIONS randomx_verif_iterations
+#endif
 
 namespace randomx {
 
